@@ -20,7 +20,7 @@ def worker(case):
     from spydrnet.flatten import flatten
 
     key = _hier.key_of(case, n)
-    tag = "%s:%s" % (case[0][0], case[0][2])
+    tag = "%s:%s" % (case[0][0], case[2] if len(case) > 2 else case[0][2])
     e0 = elab.Elab(n)
     part0 = e0.endpoint_partition()
     leaves0 = {}
@@ -62,7 +62,11 @@ engine_b.WORKERS[ID] = worker
 
 
 def cases(tier):
-    return [(desc, order) for desc in design.family_hier(tier) for order in core.ORDER_VARIANTS]
+    out = [(desc, order) for desc in design.family_hier(tier) for order in core.ORDER_VARIANTS]
+    for desc in design.family_hier(tier, variants=("plain",)):
+        if desc[0] in ("K2-shared", "K8-bus", "K1-chain2"):
+            out.append((desc, "asc", "late-ports"))
+    return out
 
 
 def run(tier, seed):
